@@ -127,8 +127,20 @@ impl LengthDelimitedCodec {
     pub fn encode_v2(&self, msg: &Message) -> TcpResult<Vec<u8>> {
         let serialized = bitcode::serialize(msg)?;
 
+        // The receiver rejects a frame whose *decompressed* payload exceeds its limits
+        // (decode_payload_v2, compression::decompress), so refuse it here as well.
+        if serialized.len() > self.max_frame_length {
+            return Err(TcpError::MessageTooLarge {
+                size: serialized.len(),
+                max_size: self.max_frame_length,
+            });
+        }
+
         let (payload, flags) =
-            if self.compress_enabled && serialized.len() >= self.compression.min_size {
+            if self.compress_enabled
+                && serialized.len() >= self.compression.min_size
+                && serialized.len() <= compression::MAX_DECOMPRESSED_SIZE
+            {
                 let compressed = compression::compress(&serialized, self.compression.method);
                 if compression::is_beneficial(serialized.len(), compressed.len()) {
                     (
